@@ -36,11 +36,24 @@ class QuestionHistory:
 
     def __init__(self) -> None:
         """Init a new QuestionHistory."""
-        self._history: Dict[DNSQuestion, Tuple[float, Set[DNSRecord]]] = {}
+        self._history: Dict[DNSQuestion, List[Tuple[float, Set[DNSRecord]]]] = {}
 
     def add_question_at_time(self, question: DNSQuestion, now: _float, known_answers: Set[DNSRecord]) -> None:
         """Remember a question with known answers."""
-        self._history[question] = (now, known_answers)
+        entries = self._history.get(question)
+        if entries is None:
+            self._history[question] = [(now, known_answers)]
+            return
+        # An earlier asking is worth keeping only while it can suppress
+        # a question that this one cannot: it is recent enough and it
+        # does not list every known answer this one lists.
+        kept = [
+            entry
+            for entry in entries
+            if now - entry[0] <= _DUPLICATE_QUESTION_INTERVAL and not known_answers <= entry[1]
+        ]
+        kept.append((now, known_answers))
+        self._history[question] = kept
 
     def suppresses(self, question: DNSQuestion, now: _float, known_answers: Set[DNSRecord]) -> bool:
         """Check to see if a question should be suppressed.
@@ -50,26 +63,29 @@ class QuestionHistory:
         for the same resource records, there is no need for them to all be
         repeatedly asking the same question.
         """
-        previous_question = self._history.get(question)
+        entries = self._history.get(question)
         # There was not previous question in the history
-        if not previous_question:
+        if not entries:
             return False
-        than, previous_known_answers = previous_question
-        # The last question was older than 999ms
-        if now - than > _DUPLICATE_QUESTION_INTERVAL:
-            return False
-        # The last question has more known answers than
-        # we knew so we have to ask
-        if previous_known_answers - known_answers:
-            return False
-        return True
+        for than, previous_known_answers in entries:
+            # The question was asked more than 999ms ago
+            if now - than > _DUPLICATE_QUESTION_INTERVAL:
+                continue
+            # The question was asked with more known answers than
+            # we knew so it does not count
+            if previous_known_answers - known_answers:
+                continue
+            return True
+        return False
 
     def async_expire(self, now: _float) -> None:
         """Expire the history of old questions."""
         removes: List[DNSQuestion] = []
-        for question, now_known_answers in self._history.items():
-            than, _ = now_known_answers
-            if now - than > _DUPLICATE_QUESTION_INTERVAL:
+        for question, entries in self._history.items():
+            for entry in entries:
+                if now - entry[0] <= _DUPLICATE_QUESTION_INTERVAL:
+                    break
+            else:
                 removes.append(question)
         for question in removes:
             del self._history[question]
